@@ -670,7 +670,9 @@ def kernel_cross_check(ctx, report, status):
         status.problem("translator", f"pyarr self-test: {what}")
     for what in pyarr_selftest.python_problems(ctx.seed):  # accepted programs: CPython vs the evaluator, aliasing included
         status.problem("translator", f"pyarr self-test: {what}")
-    report.translator_checks += len(pyarr_selftest.REFUSED) + len(pyarr_selftest.ACCEPTED)
+    for what in pyarr_selftest.block_problems(ctx.seed):  # accepted programs WITH a block loop (private / aliased output)
+        status.problem("translator", f"pyarr self-test: {what}")
+    report.translator_checks += len(pyarr_selftest.REFUSED) + len(pyarr_selftest.ACCEPTED) + len(pyarr_selftest.BLOCK_PROGRAMS)
     rng = random.Random(4242 + ctx.seed)
     shapes = KERNEL_SHAPES + [None] * ctx.n(24, 200)
     for shape in shapes:
@@ -706,6 +708,75 @@ def kernel_cross_check(ctx, report, status):
                            f"{ny}x{nx} map, filter_size {fs}")
             return
     report.count("kernel_cross_check_maps", len(shapes))
+    bilateral_kernel_cross_check(ctx, report, status, rng, t8, consts)
+
+
+BIL_KERNEL_SHAPES = [(53, 4), (4, 54), (7, 7), (5, 6), (4, 4), (6, 9), (3, 3)]
+
+
+def bilateral_kernel_cross_check(ctx, report, status, rng, t8, consts):
+    """T15, bilateral: the real `filter_bilateral` (result and input afterwards) and `BilateralFilter.filter_disparity` against
+    the evaluator of the translated statement lists, the two Gaussians being Pandora's own functions plugged in where the
+    generated definitions have their uninterpreted parameters (float64 maps, relative tolerance 1e-9; NaN / inf must agree)."""
+    import math
+    import warnings
+
+    from translator import gen_kernels_filter, pyarr
+    from pandora import filter as flt
+
+    try:
+        _, bil = gen_kernels_filter.bilateral_functions()
+    except Exception:  # already reported by build_and_audit (translate())  # pylint: disable=broad-except
+        return
+
+    def cells(a):
+        return [[float(v) for v in row] for row in np.asarray(a, dtype=np.float64)]
+
+    def close(a, b):
+        for ra, rb in zip(a, b):
+            for x, y in zip(ra, rb):
+                if math.isnan(x) or math.isnan(y) or math.isinf(x) or math.isinf(y):
+                    if not ((math.isnan(x) and math.isnan(y)) or x == y):
+                        return False
+                elif abs(x - y) > 1e-9 * max(1.0, abs(y)):
+                    return False
+        return len(a) == len(b)
+
+    shapes = BIL_KERNEL_SHAPES + [None] * ctx.n(14, 120)
+    for shape in shapes:
+        ny, nx, disp, flags, _, _ = gen_map(rng, shape, small=((3, 3), (4, 4), (4, 6), (5, 5), (6, 7), (7, 6), (8, 9)))
+        ss = rng.choice([0.5, 0.7, 1.0, 1.5] if max(ny, nx) > 50 else SIGMA_SPACE)
+        sc = rng.choice(SIGMA_COLOR)
+        f = flt.AbstractFilter(cfg={"filter_method": "bilateral", "sigma_space": ss, "sigma_color": sc}, image_shape=(ny, nx), step=1)
+        ufuns = {"gaussSpatialKernel": lambda k, sg: [[float(v) for v in row] for row in f.gauss_spatial_kernel(int(k), float(sg))],
+                 "normalizedGaussian": lambda x, sg: float(f.normalized_gaussian(np.float64(x), float(sg)))}
+        data = np.array(disp, dtype=np.float64)
+        data[rng.randrange(ny), rng.randrange(nx)] = np.nan
+        st = pyarr.PStore([cells(data)])
+        with warnings.catch_warnings():
+            warnings.simplefilter("ignore")
+            k = pyarr.evaluate(bil["filterBilateral"], st, ny, nx, {"data": 0}, rats={"sigma_space": ss, "sigma_color": sc},
+                               t8=t8, ufuns=ufuns)
+            real = f.filter_bilateral(data, ss, sc)
+        report.translator_checks += 1
+        if not close(st.arr[k], cells(real)) or not close(st.arr[0], cells(data)):
+            status.problem("translator", f"translated filter_bilateral evaluates differently from the real function on a {ny}x{nx} map, "
+                           f"sigma_space {ss}, sigma_color {sc} (result close: {close(st.arr[k], cells(real))}, input afterwards equal: "
+                           f"{close(st.arr[0], cells(data))})")
+            return
+        ds = fl.make_disp(np.array(disp, dtype=np.float64), flags, dtype="float64")
+        st = pyarr.PStore([cells(ds["disparity_map"].data)])
+        with warnings.catch_warnings():
+            warnings.simplefilter("ignore")
+            pyarr.evaluate(bil["filterDisparityBilateral"], st, ny, nx, {"disparity_map": 0}, ints={"validity_mask": flags.tolist()},
+                           rats={"sigma_space": ss, "sigma_color": sc}, consts=consts, t8=t8, ufuns=ufuns)
+            f.filter_disparity(ds)
+        report.translator_checks += 1
+        if not close(st.arr[0], cells(ds["disparity_map"].data)):
+            status.problem("translator", f"translated BilateralFilter.filter_disparity evaluates differently from the real function on a "
+                           f"{ny}x{nx} map, sigma_space {ss}, sigma_color {sc}")
+            return
+    report.count("kernel_cross_check_bilateral_maps", len(shapes))
 
 
 def run(ctx, report, status):
